@@ -2,6 +2,7 @@ import Cfdp.Model.Segments
 import Cfdp.Model.Checksum
 import Cfdp.Model.Path
 import Cfdp.Model.Codec.Pdu
+import Cfdp.Model.Udp
 
 /-!
 Line-protocol driver: executes the model's definitions on the op lines produced by the Rust
@@ -12,6 +13,7 @@ open Cfdp
 
 structure DState where
   segs : List Seg.Seg := []
+  udpBuf : Codec.Bytes := []
 
 def fmtPairs (l : List (Nat × Nat)) : String :=
   "[" ++ ",".intercalate (l.map (fun p => s!"{p.1}-{p.2}")) ++ "]"
@@ -175,12 +177,27 @@ def codecStep (toks : List String) : String :=
     | none => "bad-op"
   | _ => "bad-op"
 
+def udpStep (st : DState) (toks : List String) : DState × String :=
+  match toks with
+  | ["new"] => ({ st with udpBuf := Udp.initBuffer }, "ok")
+  | ["recv", h] =>
+    match unhex h with
+    | some dg =>
+      let r := Udp.receive st.udpBuf dg
+      ({ st with udpBuf := r.1 },
+        match r.2 with
+        | .ok p => "ok " ++ CodecFmt.pduRepr p
+        | .error _ => "err")
+    | none => (st, "bad-op")
+  | _ => (st, "bad-op")
+
 def step (st : DState) (line : String) : DState × String :=
   match (line.splitOn " ").filter (· ≠ "") with
   | "seg" :: rest => segStep st rest
   | "cksum" :: rest => (st, cksumStep rest)
   | "path" :: rest => (st, pathStep rest)
   | "codec" :: rest => (st, codecStep rest)
+  | "udp" :: rest => udpStep st rest
   | _ => (st, "bad-op")
 
 partial def loop (h : IO.FS.Stream) (out : IO.FS.Stream) (st : DState) : IO Unit := do
